@@ -101,6 +101,13 @@ def cases(tier, rng):
             for ty in (0, 4):
                 b = R.encode(R.Art([pal], [R.Image(0, off, h, 0, ty, 0), R.Image(4, 10, 2, 3, 0, 0)], [], 0))
                 yield Case(f"!prt.use {b.hex()} {PIX['mid'].hex()} 1", check=use_check, tag="zero-width-huge-height")
+    # palette index out of range combined with the geometries for which other checks are trivially satisfied
+    # (zero width / zero scan line / zero height): the palette lookup of the extraction must still be guarded
+    for (scan, w, h) in ((0, 0, 0), (0, 0, 1), (0, 0, 8), (4, 1, 0), (4, 4, 1), (8, 5, 2)):
+        for pidx in (1, 2, 255, 65535):
+            for ty in (0, 4):
+                b = R.encode(R.Art([pal], [R.Image(scan, 10, h, w, ty, pidx), R.Image(4, 10, 2, 3, 0, 0)], [], 0))
+                yield Case(f"!prt.use {b.hex()} {PIX['mid'].hex()} 1", check=use_check, tag="palette-index-with-degenerate-geometry")
     # pixel range exactly at / one past the end of the pixel file
     for w, h in [(4, 4), (8, 3), (1, 1), (3, 2)]:
         n = R.round4(w) * h
